@@ -67,13 +67,24 @@ def gen_points(rng, n, ncent):
     return ([ra[i] for i in order], [dec[i] for i in order], [near[i] for i in order], cent)
 
 
-def write_source(fmt, path, cols, rgsize=None):
+def write_source(fmt, path, cols, rgsize=None, hdu_index=1):
     if fmt == "fits":
         from astropy.io import fits
-        hdu = fits.BinTableHDU.from_columns([fits.Column(name=k, array=np.asarray(v),
-                                                         format={"f": "D", "i": "K"}[np.asarray(v).dtype.kind] if np.asarray(v).dtype.itemsize == 8 else {"f": "E", "i": "J"}[np.asarray(v).dtype.kind])
-                                             for k, v in cols.items()])
-        hdu.writeto(path, overwrite=True)
+
+        def table(c):
+            return fits.BinTableHDU.from_columns([fits.Column(name=k, array=np.asarray(v),
+                                                              format={"f": "D", "i": "K"}[np.asarray(v).dtype.kind] if np.asarray(v).dtype.itemsize == 8 else {"f": "E", "i": "J"}[np.asarray(v).dtype.kind])
+                                                  for k, v in c.items()])
+        if hdu_index == 1:
+            table(cols).writeto(path, overwrite=True)
+        else:
+            # the requested table sits in a later extension; the earlier ones hold other tables with the same
+            # column names (fewer rows, other values)
+            decoys = []
+            for d in range(1, hdu_index):
+                m = max(1, len(next(iter(cols.values()))) // 2 - d)
+                decoys.append(table({k: (np.asarray(v)[:m][::-1].copy()) for k, v in cols.items()}))
+            fits.HDUList([fits.PrimaryHDU()] + decoys + [table(cols)]).writeto(path, overwrite=True)
     elif fmt == "hdf5":
         import h5py
         with h5py.File(path, "w") as f:
@@ -284,9 +295,14 @@ def execute(ctx, spec, inp, ex, idx, tag=""):
             return impl.Catalog.from_dataframe(cache, impl.make_df(cols), chunksize=cs, max_workers=mw, **kwargs)
         ext = {"fits": ".fits", "hdf5": ".hdf5", "parquet": ".pqt"}[fmt]
         path = os.path.join(ctx.workdir, "src_%d%s%s" % (idx, tag, ext))
-        write_source(fmt, path, cols, spec.get("rgsize"))
+        # reader options that from_file passes through: for FITS the table extension (every other seed: 2 or 3)
+        hdu_index = 1 if fmt != "fits" or spec["dseed"] % 2 else 2 + (spec["dseed"] // 2) % 2
+        write_source(fmt, path, cols, spec.get("rgsize"), hdu_index=hdu_index)
+        extra = {"hdu": hdu_index} if fmt == "fits" and hdu_index != 1 else {}
+        if extra:
+            ctx.bump("fits_table_extension:%d" % hdu_index)
         try:
-            return impl.Catalog.from_file(cache, path, chunksize=cs, max_workers=mw, **kwargs)
+            return impl.Catalog.from_file(cache, path, chunksize=cs, max_workers=mw, **extra, **kwargs)
         finally:
             os.unlink(path)
 
